@@ -85,7 +85,10 @@ func buildShape(name string, n int, salt int) (enc []byte, decode func(src []byt
 		}
 		step := wt.Duration([]int32{1, 60, 0x7fffffff / 4, 1 << 30}[salt%4])
 		from := wt.Timestamp([]uint32{0, 1600000000, 5, 0}[salt%4]) // salt%4 == 3: the series spans 2^31 seconds or more
-		ts := wt.NewTimeSeries(from, from.Add(step*wt.Duration(n)), step, vals)
+		if salt%4 == 3 && n > 1 {
+			step = wt.Duration((3 << 30) / n) // n x step lies in [2^31, 2^32): beyond the int32 range of Duration
+		}
+		ts := wt.NewTimeSeries(from, wt.Timestamp(uint32(from)+uint32(n)*uint32(step)), step, vals)
 		return ts.AppendTo(nil), func(src []byte) ([]byte, wt.AppenderTo, error) {
 			o := &wt.TimeSeries{}
 			r, err := o.TakeFrom(src)
@@ -249,13 +252,21 @@ func runCodec(args []string) int {
 			e2, d2 := buildShape(n2, c2, i*3+j)
 			all := append(append([]byte{}, e1...), e2...)
 			pairs++
-			r1, o1, err1 := d1(all)
+			safe := func(d func(src []byte) ([]byte, wt.AppenderTo, error), src []byte) (r []byte, o wt.AppenderTo, err error) {
+				defer func() {
+					if rc := recover(); rc != nil {
+						err = fmt.Errorf("decoder panics: %v", rc)
+					}
+				}()
+				return d(src)
+			}
+			r1, o1, err1 := safe(d1, all)
 			if err1 != nil || !bytes.Equal(r1, e2) || !bytes.Equal(o1.AppendTo(nil), e1) {
 				viols = append(viols, violation{Prop: "C14", What: "concatenated messages", Detail: fmt.Sprintf("first of %s+%s: err=%v", n1, n2, err1),
 					Line: map[string]interface{}{"first": n1, "second": n2}})
 				continue
 			}
-			r2, o2, err2 := d2(r1)
+			r2, o2, err2 := safe(d2, r1)
 			if err2 != nil || len(r2) != 0 || !bytes.Equal(o2.AppendTo(nil), e2) {
 				viols = append(viols, violation{Prop: "C14", What: "concatenated messages", Detail: fmt.Sprintf("second of %s+%s: err=%v", n1, n2, err2),
 					Line: map[string]interface{}{"first": n1, "second": n2}})
